@@ -75,6 +75,8 @@ MARKER_PROPS = {
     "VF:huffman.stats_survived_clear": ["C06", "C08"],
     "VF:coded_composite.": ["C10", "C01"],
     "VF:coded_composite.clear": ["C08", "C01"],
+    "VF:coded_life.clear": ["C08"],
+    "VF:coded_life.reserve": ["C10"],
     "VF:huffman.forms.": ["C20"],
     "VF:dictionary.": ["C07"],
     "VF:dictionary.read_differs_from_pushed": ["C07", "C01", "C04", "C10"],
